@@ -114,11 +114,17 @@ def apply_model(m, op):
       return "KeyError"
     m.remove(op[1])
     return None
+  if op[0] == "set-unhashable":
+    return "TypeError"                   # a value must be hashable: the assignment is refused and changes nothing
   raise ValueError(op)
 
 
 def apply_real(d, op):
   try:
+    if op[0] == "set-unhashable":
+      ks = op[1]
+      d[ks[0] if len(ks) == 1 else tuple(ks)] = [1, 2]
+      return None
     if op[0] == "set":
       ks = op[1]
       d[ks[0] if len(ks) == 1 and op[3] else tuple(ks)] = VALS[op[2]]
@@ -207,6 +213,8 @@ def mkd_ops(nkeys, nvals, maxtuple):
   for k in ks:
     ops.append(["del", k])
   ops.append(["del", "zz"])             # never present
+  ops.append(["set-unhashable", [ks[0]]])
+  ops.append(["set-unhashable", [ks[-1], ks[0]]])
   for vi in range(nvals):
     for k in ks:
       ops.append(["set", [k], vi, True])      # d[k] = v
@@ -237,6 +245,23 @@ def run_mkd(case):
     return bad("mkd:state:" + o[0].split("(")[0].split("[")[0],
                "observer disagrees with the key->value model in the state reached by the history",
                {"observer": o[0], "value": o[1]}, {"value": o[2], "history": hist})
+  # casting: a MultiKeyDict built from this one (its items have key tuples as keys) is an equal, independent map
+  for label, mk in (("MultiKeyDict(d)", lambda: MultiKeyDict(d)), ("MultiKeyDict(dict(d.items()))", lambda: MultiKeyDict(dict(d.items()))),
+                    ("MultiKeyDict(list(d.items()))", lambda: MultiKeyDict(list(d.items())))):
+    try:
+      d2 = mk()
+      o = observe_mkd(d2, m, nkeys, nvals)
+      if o is None and len(m.groups):
+        d2[KEYS[0]] = "other"
+        del d2[KEYS[0]]
+        o = observe_mkd(d, m, nkeys, nvals)
+        if o is not None:
+          o = ("original after changing the copy: " + o[0], o[1], o[2])
+    except Exception as exc:
+      o = ("exception", None, repr(exc)[:200])
+    if o is not None:
+      return bad("mkd:cast:" + o[0].split("(")[0].split("[")[0], "%s must be a map equal to d (and independent of it)" % label,
+                 {"observer": o[0], "value": o[1]}, {"value": o[2], "history": hist})
   for op in mkd_ops(nkeys, nvals, maxtuple):
     d, m = build_mkd(hist)
     before = m.canon()
